@@ -38,7 +38,26 @@ package loader
 //@        (forall j int :: 0 <= j && j < len(env) && j != i ==> partBefore(env[j], "=") != partBefore(env[i], "=")) ==> result0[boxed(partBefore(env[i], "="))] == boxed(partAfter(env[i], "=")))
 //@   loop 1 invariant mnil: m != nil
 //@   loop 1 invariant mfresh: fresh(m)
-//@   loop 1 invariant idxlo: idx >= -1
+//@   loop 1 invariant idxlo: idx >= -1 && (typeis(s, "types.Environment") ==> idx < len(env) || idx == -1)
 //@   loop 1 invariant forall i int :: 0 <= i && i <= idx && sepCount(env[i], "=") >= 1 ==> boxed(partBefore(env[i], "=")) in m
 //@   loop 1 invariant forall i int :: 0 <= i && i <= idx && sepCount(env[i], "=") >= 1 &&
 //@        (forall j int :: 0 <= j && j <= idx && j != i ==> partBefore(env[j], "=") != partBefore(env[i], "=")) ==> m[boxed(partBefore(env[i], "="))] == boxed(partAfter(env[i], "="))
+
+// mergo does the field-level merge: trusted (third-party), only its frame and result are assumed
+//@ func mergeProcess
+//@   flag trusted
+//@   ensures result1 == nil ==> result0 == base
+//@   assigns deref(base)
+
+// C15: processes defined in only one file are kept as they are; nothing the override does not mention is lost
+//@ func mergeProcesses
+//@   requires base != nil && base != override
+//@   ensures same-map: result1 == nil ==> result0 == base
+//@   ensures union: result1 == nil ==> (forall n string :: n in base <==> (old(n in base) || n in override))
+//@   ensures only-in-override: result1 == nil ==> (forall n string :: n in override && !old(n in base) ==> base[n] == override[n])
+//@   ensures only-in-base: result1 == nil ==> (forall n string :: old(n in base) && !(n in override) ==> base[n] == old(base[n]))
+//@   loop 1 invariant base != nil && base != override
+//@   loop 1 invariant forall n string :: n in base <==> (old(n in base) || (seen(n) && n in override))
+//@   loop 1 invariant forall n string :: seen(n) && n in override && !old(n in base) ==> base[n] == override[n]
+//@   loop 1 invariant forall n string :: !(n in override) && old(n in base) ==> base[n] == old(base[n])
+//@   loop 1 invariant forall n string :: (n in override) == old(n in override)
